@@ -5,8 +5,8 @@ import shutil
 import tempfile
 from collections import defaultdict
 
-from engine import gen_states, pool_map
-from readers import gaf_record, read_text, run_cli, write_text
+from engine import REPO, gen_states, pool_map
+from readers import eol_for, gaf_record, read_text, run_cli, write_text
 
 EXTRA = ["tp:A:P", "NM:i:-3", "zd:Z:a:b c#1"]
 
@@ -95,7 +95,7 @@ def run_graph(job):
             spans.append((wid, w, len(lines), len(lines) + len(recs)))
             lines += recs
         u = os.path.join(d, "u.gaf" + (".gz" if gaf_storage == "bgzf" else ""))
-        write_text(u, "\n".join(lines) + "\n", gaf_storage, block=700)
+        write_text(u, "\n".join(lines) + eol_for(gid), gaf_storage, block=700)
         s, u2, s2 = (os.path.join(d, x) for x in ("s.gaf", "u2.gaf", "s2.gaf"))
         status = "ok"
         for src, dst, fmt in ((u, s, "stable"), (s, u2, "unstable"), (u2, s2, "stable")):
@@ -153,7 +153,7 @@ def fixture_jobs(rnd, mode, n):
     import re
 
     segs, links = {}, []
-    for line in open("/repo/tests/data/smallgraph.gfa"):
+    for line in open(REPO + "/tests/data/smallgraph.gfa"):
         f = line.rstrip("\n").split("\t")
         if f[0] == "S":
             t = {x.split(":", 2)[0]: x.split(":", 2)[2] for x in f[3:]}
